@@ -4,6 +4,7 @@ import (
 	"encoding/binary"
 	"fmt"
 	"math"
+	"reflect"
 	"sort"
 	"strings"
 
@@ -367,6 +368,43 @@ func errs(err error) string {
 	return err.Error()
 }
 
+// Scribble overwrites the contents of the slices handed to Write (and of their element slices) the way a caller does that
+// refills its row buffers for the next call: nothing that ends up in the file may depend on them after Write returned.
+func Scribble(v any) {
+	var walk func(rv reflect.Value)
+	walk = func(rv reflect.Value) {
+		if rv.Kind() != reflect.Slice {
+			return
+		}
+		for i := 0; i < rv.Len(); i++ {
+			e := rv.Index(i)
+			switch e.Kind() {
+			case reflect.Slice:
+				walk(e)
+			case reflect.String:
+				if e.CanSet() {
+					e.SetString("~scribbled~")
+				}
+			case reflect.Int, reflect.Int8, reflect.Int16, reflect.Int32, reflect.Int64:
+				if e.CanSet() {
+					e.SetInt(0x55)
+				}
+			case reflect.Uint, reflect.Uint8, reflect.Uint16, reflect.Uint32, reflect.Uint64:
+				if e.CanSet() {
+					e.SetUint(0x55)
+				}
+			case reflect.Float32, reflect.Float64:
+				if e.CanSet() {
+					e.SetFloat(-12345.5)
+				}
+			}
+		}
+	}
+	if v != nil {
+		walk(reflect.ValueOf(v))
+	}
+}
+
 // Close closes the writer (idempotent).
 func (e *Exec) Close() error {
 	if e.FW == nil {
@@ -506,6 +544,7 @@ func (e *Exec) Apply(op Op) (st Step) {
 		if k, _ := o.Spec.Base(); k == "vl" {
 			goVal, elems := o.Spec.VLData(dims, op.Seed)
 			err = h.Write(goVal)
+			Scribble(goVal) // the buffers are the caller's again once Write has returned (elems is a separate copy)
 			st.Err = errs(err)
 			if err == nil {
 				o.VL, o.Raw, o.Written = elems, nil, true
@@ -542,6 +581,7 @@ func (e *Exec) Apply(op Op) (st Step) {
 			}
 		} else {
 			err = h.Write(goVal)
+			Scribble(goVal) // raw is a separate copy of what was written
 		}
 		st.Err = errs(err)
 		if err == nil && !bad {
